@@ -358,7 +358,8 @@ Section Sem.
 
 End Sem.
 
-Definition scan_fuel (data : bytes) : nat := 3 * List.length data + 16.
+(* generous: the metatheory needs 7 * (6 * (len + 1) + 60) + 1 *)
+Definition scan_fuel (data : bytes) : nat := 42 * List.length data + 512.
 
 Definition scan (jsc_len enum_len : bytes -> len_result) (data : bytes) : list lexeme * scan_end * cfg :=
   scan_all jsc_len enum_len data (N.of_nat (List.length data)) (scan_fuel data) (init_cfg data) [].
